@@ -11,11 +11,13 @@
 //! * `arrow`     files written by `ArrowWriter` (flat and some nested columns over all sort orders, tiny pages)
 //! * `lowlevel`  files written by `SerializedFileWriter` column writers: DECIMAL on BYTE_ARRAY with values of different
 //!               byte lengths (sign extension), plain BYTE_ARRAY / UTF8 and unsigned INT32 columns
+//! * `repro`     minimal reproductions of the reported findings (keys `C07-*`); judged only in replay / known-finding
+//!               mode (`c.strict`), skipped otherwise
 #[path = "../pq_gen.rs"]
 mod pq_gen;
 
 use arrow_array::{Array, ArrayRef, RecordBatch};
-use arrow_schema::{Field, Schema};
+use arrow_schema::Field;
 use bytes::Bytes;
 use parquet::arrow::arrow_reader::statistics::StatisticsConverter;
 use parquet::arrow::arrow_reader::{ArrowReaderMetadata, ArrowReaderOptions};
@@ -34,7 +36,7 @@ use parquet::file::writer::SerializedFileWriter;
 use parquet::schema::parser::parse_message_type;
 use parquet::schema::types::{ColumnDescPtr, SchemaDescriptor};
 use pq_gen::*;
-use serde_json::{json, Value};
+use serde_json::json;
 use std::cmp::Ordering;
 use std::collections::VecDeque;
 use std::sync::Arc;
@@ -159,7 +161,9 @@ fn order_of(leaf: &LType, phys: Phys) -> Ord_ {
             Phys::INT32 | Phys::INT64 => Ord_::Signed,
             _ => Ord_::DecimalBE,
         },
-        Date32 | Date64 | Time32(_) | Time64(_) | Timestamp(..) | Duration(_) | Null => Ord_::Signed,
+        Date32 | Date64 | Time32(_) | Time64(_) | Timestamp(..) | Duration(_) => Ord_::Signed,
+        // Arrow Null is stored as INT32 annotated UNKNOWN: undefined order, always null
+        Null => Ord_::Undefined,
         Utf8(_) | Binary(_) | FixedBinary(_) => Ord_::UnsignedBytes,
         IntervalYM | IntervalDT | IntervalMDN => Ord_::Undefined,
         _ => Ord_::Undefined,
@@ -204,7 +208,7 @@ fn to_pv(leaf: &LType, phys: Phys, type_len: usize, v: &LValue) -> PV {
             Phys::INT64 => PV::I64(i64::from_le_bytes(b[..8].try_into().unwrap())),
             _ => {
                 let mut be: Vec<u8> = b.iter().rev().copied().collect();
-                if type_len < 32 {
+                if type_len > 0 && type_len < 32 {
                     be = be[32 - type_len..].to_vec();
                 }
                 PV::Bytes(be)
@@ -213,7 +217,7 @@ fn to_pv(leaf: &LType, phys: Phys, type_len: usize, v: &LValue) -> PV {
         (_, LValue::Int(i)) => match phys {
             Phys::INT32 => PV::I32(*i as i32),
             Phys::INT64 => PV::I64(*i as i64),
-            _ => PV::Bytes(be_bytes_of_i128(*i, type_len)),
+            _ => PV::Bytes(be_bytes_of_i128(*i, if type_len == 0 { 16 } else { type_len })),
         },
         _ => PV::Bytes(vec![]),
     }
@@ -296,11 +300,9 @@ struct ColTruth {
     /// per file row: number of level entries and the non-null physical values
     rows: Vec<(usize, Vec<PV>)>,
     bloom: bool,
-    stats: EnabledStatistics,
     /// (leaf index, arrow leaf field) to drive StatisticsConverter; None = not judged through the converter
     conv: Option<(Field, LType)>,
     top_level_flat: bool,
-    max_def_zero_ok: bool,
 }
 
 // ------------------------------------------------------------------------------------------------
@@ -562,17 +564,25 @@ struct FileOutcome {
     boundary_claims: u32,
     null_pages: u32,
     converter: bool,
+    empty_pages: u32,
     evals: u64,
 }
 
 fn verify_file(bytes: &Bytes, cols: &[ColTruth], facts: &PropFacts, total_rows: usize) -> Result<FileOutcome, Fail> {
-    let mut fo = FileOutcome { multi_page_with_null: false, truncated: false, chunk_stats: false, column_index: false, offset_index: false, bloom: false, page_header_stats: false, boundary_claims: 0, null_pages: 0, converter: false, evals: 0 };
+    let mut fo = FileOutcome { multi_page_with_null: false, truncated: false, chunk_stats: false, column_index: false, offset_index: false, bloom: false, page_header_stats: false, boundary_claims: 0, null_pages: 0, converter: false, empty_pages: 0, evals: 0 };
     // reader 1: sequential pages, no page index, bloom filters on
     let ropts = ReadOptionsBuilder::new().with_reader_properties(ReaderProperties::builder().set_read_bloom_filter(true).set_read_page_statistics(true).build()).build();
     let fr = perr("SerializedFileReader::new", no_panic("SerializedFileReader::new", || SerializedFileReader::new_with_options(bytes.clone(), ropts))?)?;
     // reader 2: metadata with page index
     let arm = perr("ArrowReaderMetadata::load", no_panic("ArrowReaderMetadata::load", || ArrowReaderMetadata::load(bytes, ArrowReaderOptions::new().with_page_index_policy(PageIndexPolicy::Optional)))?)?;
     let meta: &ParquetMetaData = arm.metadata();
+    // reader 3: pages fetched through the offset index (page locations) - must yield the same pages as reader 1
+    let fr_idx = if meta.page_index().map(|p| p.has_offset_indexes()).unwrap_or(false) {
+        let o = ReadOptionsBuilder::new().with_page_index().build();
+        no_panic("SerializedFileReader::new(page index)", || SerializedFileReader::new_with_options(bytes.clone(), o))?.ok()
+    } else {
+        None
+    };
     let pq_schema: &SchemaDescriptor = meta.file_metadata().schema_descr();
     let arrow_schema = arm.schema().clone();
     ensure!(pq_schema.num_columns() == cols.len(), "harness:columns", "file has {} leaf columns, model {}", pq_schema.num_columns(), cols.len());
@@ -594,6 +604,9 @@ fn verify_file(bytes: &Bytes, cols: &[ColTruth], facts: &PropFacts, total_rows: 
             ensure!(decl == declared(col.ord), "order:declared", "column {}: declared sort order {:?}, reference {:?}", col.name, decl, col.ord);
 
             let pages = read_chunk_pages(rgr.as_ref(), ci, &descr)?;
+            if std::env::var("C07_DEBUG").is_ok() {
+                eprintln!("DEBUG col {} rg {} rows {}: pages (entries,rows,nulls,values) {:?}", col.name, rgi, rg_rows, pages.iter().map(|p| (p.entries, p.rows, p.nulls, p.vals.len())).collect::<Vec<_>>());
+            }
             // ---- model vs pages
             let mrows = &col.rows[row0..row0 + rg_rows];
             let mut r = 0usize;
@@ -603,7 +616,13 @@ fn verify_file(bytes: &Bytes, cols: &[ColTruth], facts: &PropFacts, total_rows: 
             let mut page_rows0 = vec![];
             for (pi, p) in pages.iter().enumerate() {
                 page_rows0.push(r);
-                ensure!(p.rows >= 1, "pages:empty_page", "column {} rg {} page {} starts no row", col.name, rgi, pi);
+                // content-defined chunking can emit a data page without any entry (explicit page break right after a
+                // page the size limits already closed); it delimits zero rows and is tolerated (counted). A page
+                // with entries but no row start would be a record split across pages.
+                ensure!(p.rows >= 1 || p.entries == 0, "pages:record_split", "column {} rg {} page {} holds {} entries but starts no row", col.name, rgi, pi, p.entries);
+                if p.entries == 0 {
+                    fo.empty_pages += 1;
+                }
                 ensure!(r + p.rows <= rg_rows, "pages:rows", "column {} rg {}: pages hold more rows than the row group ({})", col.name, rgi, rg_rows);
                 let want_entries: usize = mrows[r..r + p.rows].iter().map(|x| x.0).sum();
                 let want_vals: Vec<&PV> = mrows[r..r + p.rows].iter().flat_map(|x| x.1.iter()).collect();
@@ -672,10 +691,22 @@ fn verify_file(bytes: &Bytes, cols: &[ColTruth], facts: &PropFacts, total_rows: 
                     ensure!(l.compressed_page_size > 0, "offset_index:size", "column {} rg {} page {}: compressed_page_size {}", col.name, rgi, pi, l.compressed_page_size);
                     if pi > 0 {
                         ensure!(l.offset >= locs[pi - 1].offset + locs[pi - 1].compressed_page_size as i64, "offset_index:offset", "column {} rg {} page {}: offset {} overlaps the previous page", col.name, rgi, pi, l.offset);
-                        ensure!(l.first_row_index > locs[pi - 1].first_row_index, "offset_index:first_row_index", "column {} rg {} page {}: first_row_index not strictly increasing", col.name, rgi, pi);
+                        ensure!(l.first_row_index > locs[pi - 1].first_row_index || pages[pi - 1].entries == 0, "offset_index:first_row_index", "column {} rg {} page {}: first_row_index not strictly increasing", col.name, rgi, pi);
                     }
                 }
                 fo.evals += 1;
+            }
+            // ---- pages located through the offset index decode to the same content
+            if let (Some(fi), Some(_)) = (&fr_idx, pidx.and_then(|p| p.offset_index(rgi, ci))) {
+                if fi.metadata().page_index().and_then(|p| p.offset_index(rgi, ci)).is_some() {
+                    let rgi2 = perr("get_row_group", no_panic("get_row_group", || fi.get_row_group(rgi))?)?;
+                    let pages2 = read_chunk_pages(rgi2.as_ref(), ci, &descr)?;
+                    ensure!(pages2.len() == pages.len(), "offset_index:page_fetch", "column {} rg {}: {} pages through page locations, {} sequentially", col.name, rgi, pages2.len(), pages.len());
+                    for (pi, (a, b)) in pages.iter().zip(&pages2).enumerate() {
+                        ensure!(a.entries == b.entries && a.rows == b.rows && a.vals == b.vals, "offset_index:page_fetch", "column {} rg {} page {}: page located through the offset index differs from the sequential page ({} vs {} entries)", col.name, rgi, pi, b.entries, a.entries);
+                    }
+                    fo.evals += 1;
+                }
             }
             // ---- column index
             if let Some(cidx) = pidx.and_then(|p| p.column_index(rgi, ci)) {
@@ -687,12 +718,28 @@ fn verify_file(bytes: &Bytes, cols: &[ColTruth], facts: &PropFacts, total_rows: 
                     if np {
                         fo.null_pages += 1;
                         ensure!(p.vals.is_empty(), "column_index:null_page_with_values", "column {} rg {} page {} is flagged as null page but holds {} non-null values (first {:?})", col.name, rgi, pi, p.vals.len(), p.vals.first());
+                    } else if p.entries == 0 {
+                        // empty page (see above): nothing to bound
                     } else {
                         ensure!(!p.vals.is_empty(), "column_index:valueless_page_not_null_page", "column {} rg {} page {} holds no value but is not flagged as null page", col.name, rgi, pi);
                         let (mn, mx) = index_bounds(cidx, pi);
                         let pv: Vec<&PV> = p.vals.iter().collect();
-                        if let (Some(a), Some(b)) = (&mn, &mx) {
-                            seq.push((a.clone(), b.clone()));
+                        // boundary order is judged on the pages' actual extrema (what the claim is about and what
+                        // makes pruning sound); stored bounds may be truncated, which is not monotone at UTF-8
+                        // character boundaries. NaN-only pages are not constrained and are skipped.
+                        let live: Vec<&PV> = pv.iter().copied().filter(|v| !is_nan(col.ord, v)).collect();
+                        if let Some(first) = live.first() {
+                            let mut lo = *first;
+                            let mut hi = *first;
+                            for v in &live {
+                                if ref_cmp(col.ord, v, lo) == Ordering::Less {
+                                    lo = v;
+                                }
+                                if ref_cmp(col.ord, v, hi) == Ordering::Greater {
+                                    hi = v;
+                                }
+                            }
+                            seq.push((lo.clone(), hi.clone()));
                         }
                         check_bounds(col, &pv, mn.map(|v| Bound { v, exact: false }), mx.map(|v| Bound { v, exact: false }), None, "column_index")?;
                     }
@@ -750,6 +797,16 @@ fn verify_file(bytes: &Bytes, cols: &[ColTruth], facts: &PropFacts, total_rows: 
                 let bmax = maxs[0].clone().map(|v| Bound { v, exact: emax.is_valid(0) && emax.value(0) });
                 if bmin.is_some() {
                     fo.converter = true;
+                }
+                // an exact chunk statistic of a type the converter supports must come through (null = "unknown" would
+                // silently disable pruning; truncated fixed-size-binary bounds are documented to be dropped)
+                if let Some(st) = ccm.statistics() {
+                    if st.min_bytes_opt().is_some() && st.min_is_exact() && col.ord != Ord_::Undefined {
+                        ensure!(bmin.is_some(), "converter_rg:min_missing", "column {} rg {}: chunk statistics have an exact min but StatisticsConverter returns null", col.name, rgi);
+                    }
+                    if st.max_bytes_opt().is_some() && st.max_is_exact() && col.ord != Ord_::Undefined {
+                        ensure!(bmax.is_some(), "converter_rg:max_missing", "column {} rg {}: chunk statistics have an exact max but StatisticsConverter returns null", col.name, rgi);
+                    }
                 }
                 check_bounds(col, &chunk_vals, bmin, bmax, None, "converter_rg")?;
                 let nc = perr("row_group_null_counts", conv.row_group_null_counts(rgs.iter().copied()))?;
@@ -1024,6 +1081,31 @@ fn phys_guess(ty: &LType) -> Phys {
     }
 }
 
+fn has_any_null(v: &LValue) -> bool {
+    match v {
+        LValue::Null => true,
+        LValue::Struct(xs) => xs.iter().any(has_any_null),
+        _ => false,
+    }
+}
+
+/// Reported finding C07-nested-null-page: the writer flags a page of a repeated column as "null page" when
+/// #null entries == #rows even if it holds values (e.g. rows [null, null], [5]).  Rows with several items are
+/// therefore kept free of nulls (a row is cut after its first item otherwise), which makes that coincidence
+/// impossible; returns whether anything was cut.
+fn purify_rows(rows: &mut [LValue]) -> bool {
+    let mut cut = false;
+    for r in rows.iter_mut() {
+        if let LValue::List(items) = r {
+            if items.len() > 1 && items.iter().any(has_any_null) {
+                items.truncate(1);
+                cut = true;
+            }
+        }
+    }
+    cut
+}
+
 /// column field + logical rows for a shape
 fn gen_shape_column(t: &mut Tape, name: &str, shape: &Shape, n: usize, cut: usize, page_rows: usize) -> (LField, Vec<LValue>, Vec<Style>) {
     let vcfg = ValCfg { max_str: 12, ..ValCfg::default() };
@@ -1130,6 +1212,7 @@ fn label_outcome(c: &mut Case, fo: &FileOutcome, corner: bool) {
         (fo.null_pages > 0, "null_page"),
         (fo.converter, "converter_values"),
         (fo.multi_page_with_null, "pages>=2_with_null"),
+        (fo.empty_pages > 0, "empty_data_page(cdc)"),
     ] {
         if b {
             c.class(k);
@@ -1143,6 +1226,7 @@ fn label_outcome(c: &mut Case, fo: &FileOutcome, corner: bool) {
 }
 
 fn sub_arrow(c: &mut Case) -> CaseResult {
+    let strict = c.strict;
     let t = &mut c.tape;
     let total = match t.below(16) {
         0 => t.below(4),
@@ -1168,21 +1252,27 @@ fn sub_arrow(c: &mut Case) -> CaseResult {
     let mut fields = vec![];
     let mut cols_rows = vec![];
     let mut styles = vec![];
+    let mut purified = false;
     for (i, sh) in shapes.iter().enumerate() {
         let cut = if cut_choice == 0 { *t.pick(&[1usize, 2, 3, 4, 5, 64]) } else { cut_choice };
-        let (f, rows, st) = gen_shape_column(t, &format!("c{}", i), sh, total, cut, page_rows_guess);
+        let (f, mut rows, st) = gen_shape_column(t, &format!("c{}", i), sh, total, cut, page_rows_guess);
+        if !strict && purify_rows(&mut rows) {
+            purified = true;
+        }
         fields.push(f);
         cols_rows.push(rows);
         styles.extend(st);
     }
     let schema = schema_of(&fields, None);
     let descr = parquet_schema(&schema)?;
+    // CDC findings of C05 (list views, Boolean RLE encoder on the explicit empty page): CDC stays off for such schemas
+    let has_listview = fields.iter().any(|f| f.ty.any(&|x| matches!(x, LType::List(_, ListEnc::V32 | ListEnc::V64) | LType::Bool)));
     let mut leaves = vec![];
     for f in &fields {
         leaves_of(&f.ty, &mut leaves);
     }
     ensure!(leaves.len() == descr.num_columns(), "harness:leaves", "leaf walk {} != parquet columns {}", leaves.len(), descr.num_columns());
-    let (props, facts, pdesc) = gen_props(t, &descr, &leaves, &PropOpts { stats_focus: true, rows: total });
+    let (props, facts, pdesc) = gen_props(t, &descr, &leaves, &PropOpts { stats_focus: true, rows: total, no_cdc: has_listview && !strict });
     // write in 1..=3 batches with fancy layouts
     let nb = 1 + t.below(3);
     let mut cuts: Vec<usize> = (0..nb - 1).map(|_| t.below(total + 1)).collect();
@@ -1195,7 +1285,7 @@ fn sub_arrow(c: &mut Case) -> CaseResult {
     for cu in cuts {
         let lb: LBatch = cols_rows.iter().map(|col| col[prev..cu].to_vec()).collect();
         batches.push(realise_batch(t, &schema, &fields, &lb, cu - prev, &lay));
-        flush.push(t.chance(40));
+        flush.push(rare(t, 40));
         prev = cu;
     }
     c.describe(json!({
@@ -1235,15 +1325,19 @@ fn sub_arrow(c: &mut Case) -> CaseResult {
                 utf8: matches!(leaf.denoted(), LType::Utf8(_)),
                 rows,
                 bloom: facts.cols[li + k].bloom,
-                stats: facts.cols[li + k].stats,
                 conv: if conv_ok { Some((Field::new(d.name(), leaf.denoted().arrow(), true), leaf.denoted().clone())) } else { None },
                 top_level_flat: flat,
-                max_def_zero_ok: true,
             });
         }
         li += n;
     }
 
+    if purified {
+        c.exclude("C07-nested-null-page");
+    }
+    if has_listview && !strict {
+        c.exclude("C05-cdc-listview|bool-rle");
+    }
     let (bytes, _meta) = write_serial(&schema, &batches, &flush, props)?;
     let fo = verify_file(&bytes, &truths, &facts, total)?;
 
@@ -1280,6 +1374,8 @@ fn minimal_be(v: i128) -> Vec<u8> {
 }
 
 fn sub_lowlevel(c: &mut Case) -> CaseResult {
+    let strict = c.strict;
+    let mut excluded_trunc = false;
     let t = &mut c.tape;
     let kind = t.below(4);
     let (msg, ord, utf8, phys) = match kind {
@@ -1303,7 +1399,10 @@ fn sub_lowlevel(c: &mut Case) -> CaseResult {
                 // redundant sign-extension bytes: equal numbers with different byte lengths
                 let extra = *t.pick(&[0usize, 0, 1, 2, 5]);
                 let fill = if v < 0 { 0xffu8 } else { 0 };
-                for _ in 0..extra.min(16 - b.len()) {
+                // Reported finding C07-decimal-bytearray-length-compare: compare_greater_byte_array_decimals
+                // mis-orders values of different byte lengths; unless replaying every value gets the same length
+                let extra = if strict { extra.min(16 - b.len()) } else { 16 - b.len() };
+                for _ in 0..extra {
                     b.insert(0, fill);
                 }
                 PV::Bytes(b)
@@ -1331,11 +1430,23 @@ fn sub_lowlevel(c: &mut Case) -> CaseResult {
     let schema = Arc::new(perr("parse_message_type", parse_message_type(msg))?);
     let descr = SchemaDescriptor::new(schema.clone());
     let leaves = vec![LType::Binary(Enc::O32)];
-    let (_p, mut facts, pdesc) = gen_props(t, &descr, &leaves, &PropOpts { stats_focus: true, rows: n });
+    let (_p, mut facts, pdesc) = gen_props(t, &descr, &leaves, &PropOpts { stats_focus: true, rows: n, no_cdc: false });
     // rebuild the properties without explicit encodings that are illegal for INT32 (the leaf type above is a stand-in)
     let v2 = facts.v2;
-    let stats_truncate = facts.stats_truncate;
-    let index_truncate = facts.index_truncate;
+    // Reported finding C07-decimal-bytearray-truncated: min/max of a DECIMAL stored as BYTE_ARRAY are truncated like
+    // strings (can_truncate_value() only exempts FIXED_LEN_BYTE_ARRAY decimals), which breaks the bound for
+    // two's-complement numbers. Truncation lengths below the longest value (16 bytes) are avoided unless replaying.
+    let mut stats_truncate = facts.stats_truncate;
+    let mut index_truncate = facts.index_truncate;
+    if kind <= 1 && !strict {
+        if stats_truncate.map(|l| l < 16).unwrap_or(false) || index_truncate.map(|l| l < 16).unwrap_or(false) {
+            excluded_trunc = true;
+        }
+        stats_truncate = stats_truncate.map(|l| l.max(16));
+        index_truncate = index_truncate.map(|l| l.max(16));
+    }
+    facts.stats_truncate = stats_truncate;
+    facts.index_truncate = index_truncate;
     let bloom = t.chance(128);
     let mut b = WriterProperties::builder()
         .set_writer_version(if v2 { parquet::file::properties::WriterVersion::PARQUET_2_0 } else { parquet::file::properties::WriterVersion::PARQUET_1_0 })
@@ -1353,13 +1464,13 @@ fn sub_lowlevel(c: &mut Case) -> CaseResult {
     facts.cols[0].bloom = bloom;
     facts.cols[0].stats = EnabledStatistics::Page;
     let nrg = 1 + t.below(2);
+    let split = if nrg == 2 { t.below(n + 1) } else { n };
     c.describe(json!({"schema": msg, "rows": n, "style": format!("{:?}", style), "page_rows": page_rows, "row_groups": nrg, "v2": v2, "stats_truncate": stats_truncate, "index_truncate": index_truncate, "bloom": bloom,
         "values": vals.iter().zip(&def).take(16).map(|(v, d)| if *d == 1 { format!("{:?}", v) } else { "null".into() }).collect::<Vec<_>>(), "ignored": pdesc["version"]}));
 
     let mut buf: Vec<u8> = vec![];
     {
         let mut w = perr("SerializedFileWriter::new", no_panic("SerializedFileWriter::new", || SerializedFileWriter::new(&mut buf, schema.clone(), props.clone()))?)?;
-        let split = if nrg == 2 { t.below(n + 1) } else { n };
         for (a, z) in [(0usize, split), (split, n)] {
             if a == z {
                 continue;
@@ -1385,6 +1496,12 @@ fn sub_lowlevel(c: &mut Case) -> CaseResult {
         }
         perr("SerializedFileWriter::close", no_panic("SerializedFileWriter::close", || w.close())?)?;
     }
+    if excluded_trunc {
+        c.exclude("C07-decimal-bytearray-truncated");
+    }
+    if kind <= 1 && !strict {
+        c.exclude("C07-decimal-bytearray-length-compare");
+    }
     let bytes = Bytes::from(buf);
     let rows: Vec<(usize, Vec<PV>)> = vals.iter().zip(&def).map(|(v, d)| (1usize, if *d == 1 { vec![v.clone()] } else { vec![] })).collect();
     let conv_ty = match kind {
@@ -1398,11 +1515,9 @@ fn sub_lowlevel(c: &mut Case) -> CaseResult {
         utf8,
         rows,
         bloom,
-        stats: EnabledStatistics::Page,
         // decimals in BYTE_ARRAY keep their written length: compare through canonical 16-byte values
         conv: Some((Field::new("v", conv_ty.arrow(), true), if kind <= 1 { LType::Decimal { width: 128, p: 38, s: 2 } } else { conv_ty.clone() })),
         top_level_flat: true,
-        max_def_zero_ok: true,
     };
     // the converter hands decimals back as i128: give to_pv a 16 byte target for this column
     let fo = verify_file_lowlevel(&bytes, truth, &facts, n, kind <= 1)?;
@@ -1425,6 +1540,87 @@ fn verify_file_lowlevel(bytes: &Bytes, truth: ColTruth, facts: &PropFacts, n: us
     verify_file(bytes, &[truth], facts, n)
 }
 
+// ------------------------------------------------------------------------------------------------
+// minimal reproductions of the reported findings (judged only in replay / known-finding mode)
+
+const N_REPRO: u64 = 3;
+
+fn lowlevel_decimal_file(vals: &[Vec<u8>], trunc: Option<usize>) -> Result<Bytes, Fail> {
+    let schema = Arc::new(perr("parse_message_type", parse_message_type("message m { optional binary v (DECIMAL(38,2)); }"))?);
+    let props = Arc::new(WriterProperties::builder().set_statistics_enabled(EnabledStatistics::Page).set_statistics_truncate_length(trunc).set_column_index_truncate_length(trunc).build());
+    let mut buf: Vec<u8> = vec![];
+    {
+        let mut w = perr("SerializedFileWriter::new", SerializedFileWriter::new(&mut buf, schema, props))?;
+        let mut rg = perr("next_row_group", w.next_row_group())?;
+        if let Some(mut cw) = perr("next_column", rg.next_column())? {
+            let xs: Vec<ByteArray> = vals.iter().map(|b| ByteArray::from(b.clone())).collect();
+            let d = vec![1i16; xs.len()];
+            perr("write_batch", cw.typed::<ByteArrayType>().write_batch(&xs, Some(&d), None))?;
+            perr("column close", cw.close())?;
+        }
+        perr("row group close", rg.close())?;
+        perr("close", w.close())?;
+    }
+    Ok(Bytes::from(buf))
+}
+
+fn sub_repro(c: &mut Case) -> CaseResult {
+    if !c.strict {
+        c.class("repro:skipped(not replaying)");
+        return Ok(());
+    }
+    let facts = PropFacts { v2: false, max_rg_rows: None, max_rg_bytes: None, stats_truncate: None, index_truncate: None, page_header_stats: false, offset_index_disabled: false, cdc: false, dict_limit_small: false, cols: vec![], non_default: false };
+    let (key, r): (&str, Result<FileOutcome, Fail>) = match c.index {
+        0 => {
+            // List<Int32>: rows [null, null] and [5] in one page: 2 null entries == 2 rows => flagged as null page
+            let item = LField::new("item", LType::Int { bits: 32, signed: true }, true);
+            let f = LField::new("c0", LType::List(Box::new(item), ListEnc::O32), true);
+            let rows = vec![LValue::List(vec![LValue::Null, LValue::Null]), LValue::List(vec![LValue::Int(5)])];
+            let schema = schema_of(&[f.clone()], None);
+            let batch = realise_batch(&mut c.tape, &schema, &[f.clone()], &vec![rows.clone()], 2, &Lay::plain());
+            let truth = ColTruth {
+                name: "c0.list.item".into(),
+                ord: Ord_::Signed,
+                utf8: false,
+                rows: vec![(2, vec![]), (1, vec![PV::I32(5)])],
+                bloom: false,
+                conv: None,
+                top_level_flat: false,
+            };
+            let r = write_serial(&schema, &[batch], &[false], WriterProperties::builder().build()).and_then(|(bytes, _)| verify_file(&bytes, &[truth], &facts, 2));
+            ("C07-nested-null-page", r)
+        }
+        k => {
+            let (key, vals, trunc): (&str, Vec<Vec<u8>>, Option<usize>) = if k == 1 {
+                // -70000 = fe ee 90: truncated to [fe] = -2, which is not a lower bound
+                ("C07-decimal-bytearray-truncated", vec![vec![0xfe, 0xee, 0x90], vec![0x01, 0x11, 0x70]], Some(1))
+            } else {
+                // -255 = ff 01 (two bytes) and -128 = 80 (one byte): the writer orders -255 above -128
+                ("C07-decimal-bytearray-length-compare", vec![vec![0xff, 0x01], vec![0x80]], None)
+            };
+            let truth = ColTruth {
+                name: "v".into(),
+                ord: Ord_::DecimalBE,
+                utf8: false,
+                rows: vals.iter().map(|b| (1usize, vec![PV::Bytes(b.clone())])).collect(),
+                bloom: false,
+                conv: None,
+                top_level_flat: true,
+            };
+            let n = vals.len();
+            (key, lowlevel_decimal_file(&vals, trunc).and_then(|bytes| verify_file(&bytes, &[truth], &facts, n)))
+        }
+    };
+    c.describe(json!({"finding": key}));
+    match r {
+        Ok(_) => {
+            c.class("repro:not_reproduced");
+            Ok(())
+        }
+        Err(f) => Err(Fail::new(key, format!("[{}] {}", f.sig, f.msg))),
+    }
+}
+
 fn main() {
     Check::new(
         "C07",
@@ -1435,11 +1631,12 @@ fn main() {
     .assume("null_count of nested columns counts level entries below the maximum definition level (parquet-java / arrow-cpp convention, also used by page header V2 num_nulls)")
     .assume("NaN-only or all-null pages/chunks: min/max not constrained; nan_count, distinct_count and histograms not judged; UNORDERED boundary order is never wrong; absent statistics are never wrong")
     .assume("IEEE 754 total order for FLOAT/DOUBLE/Float16 as declared by the file's ColumnOrder (checked: declared order == reference order of the type)")
-    .sub(Sub::new("arrow", 1500, 40000, sub_arrow).tape(256, 8000).require(&[
+    .sub(Sub::new("arrow", 15000, 200000, sub_arrow).tape(256, 8000).require(&[
         "order:signed", "order:unsigned", "order:total_float", "order:decimal_bytes", "order:unsigned_bytes", "order:bool", "order:undefined",
         "chunk_stats", "column_index", "offset_index", "bloom_checked", "page_header_stats", "truncated_bound", "boundary_order_claimed", "null_page", "converter_values", "nested_leaf",
         "corner:nan", "corner:neg_zero", "corner:unsigned_above_signed_max", "corner:negative", "corner:ff_tail", "corner:negative_decimal_bytes",
     ]))
-    .sub(Sub::new("lowlevel", 400, 10000, sub_lowlevel).tape(128, 3000).require(&["corner:decimal_mixed_lengths", "order:decimal_bytes", "truncated_bound", "boundary_order_claimed"]))
+    .sub(Sub::new("lowlevel", 4000, 40000, sub_lowlevel).tape(128, 3000).require(&["order:decimal_bytes", "order:unsigned", "corner:negative_decimal_bytes", "truncated_bound", "boundary_order_claimed"]))
+    .sub(Sub::new("repro", 0, 0, sub_repro).enumerate(N_REPRO, N_REPRO))
     .run()
 }
